@@ -51,6 +51,10 @@ type c11Field struct {
 }
 
 // c11Message frames fields as 8=FIX.4.2|9=<len>|35=D|fields...|10=ddd| with the BodyLength the definition gives.
+// c11CheckSumWidth: digits of the CheckSum value in the messages c11Message builds (3 on every real message; the
+// BodyLength rule must not depend on it).
+var c11CheckSumWidth = 3
+
 func c11Message(fields [][]byte, lenText []byte) []byte {
 	body := []byte("35=D\x01")
 	for _, f := range fields {
@@ -62,7 +66,7 @@ func c11Message(fields [][]byte, lenText []byte) []byte {
 	}
 	b = verifFieldText(b, []byte("9"), lenText)
 	b = append(b, body...)
-	cs := ndBytes("cksum", 3)
+	cs := ndBytes("cksum", c11CheckSumWidth)
 	for _, c := range cs {
 		verifAssume(c >= '0' && c <= '9')
 	}
@@ -251,7 +255,10 @@ func VerifHarness_C11_bad_length() {
 	nd := verifConc(ndInt("lendigits", 1, 3))
 	claimed, ltxt := c11Tag("len", nd)
 	verifAssume(claimed != correct)
+	// whatever the trailer looks like: the count runs up to the CheckSum field, not across it
+	c11CheckSumWidth = verifConc(ndInt("checksum-digits", 1, 4))
 	msg := c11Message(raw, ltxt)
+	c11CheckSumWidth = 3
 	m := NewMessage()
 	err := ParseMessage(m, bytes.NewBuffer(msg))
 	verifAssert(err != nil, "wrong-bodylength-rejected")
